@@ -152,6 +152,48 @@ func TestVerifReplay(t *testing.T) {
 		if named && sess.URRIDs[1].refPdrNum != 1 {
 			fmt.Println("REPLAY-CONFIRMED refadd: a URR added to a PDR by Update PDR is not counted as referenced; removing that PDR later yields no final usage report")
 		}
+	case strings.Contains(m.Obligation, "CreatePDR#loop{range(ies)}.preserve.cnt"):
+		// URR 1 exists; one Create PDR IE names URR 1 twice: one PDR refers to the URR, so the count must be 1 and
+		// removing that PDR must return the URR's final usage
+		_, rn := verifNode()
+		rn.driver = forwarder.Empty{}
+		sess := rn.NewSess(1)
+		if err := sess.CreateURR(ie.NewCreateURR(ie.NewURRID(1), ie.NewMeasurementMethod(0, 1, 0))); err != nil {
+			t.Fatal(err)
+		}
+		if err := sess.CreatePDR(ie.NewCreatePDR(ie.NewPDRID(1), ie.NewURRID(1), ie.NewURRID(1))); err != nil {
+			t.Fatal(err)
+		}
+		fmt.Printf("after Create PDR 1 {URR 1, URR 1}: PDRs naming URR 1: %d, refPdrNum(URR 1) = %d\n", len(sess.PDRIDs[1].RelatedURRIDs), sess.URRIDs[1].refPdrNum)
+		if sess.URRIDs[1].refPdrNum != 1 {
+			fmt.Println("REPLAY-CONFIRMED cnt: a URR id repeated inside one Create PDR is counted once per occurrence, not once per PDR; removing the only PDR that names the URR leaves the count above zero and no final usage report is returned")
+		}
+	case strings.Contains(m.Obligation, "CreatePDR#refagain"):
+		// URR 1 exists; PDR 1 {URR 1} is created twice (the data plane rejects the second one, the bookkeeping does
+		// not): one PDR names the URR, so the count must be 1
+		_, rn := verifNode()
+		rn.driver = forwarder.Empty{}
+		sess := rn.NewSess(1)
+		if err := sess.CreateURR(ie.NewCreateURR(ie.NewURRID(1), ie.NewMeasurementMethod(0, 1, 0))); err != nil {
+			t.Fatal(err)
+		}
+		for k := 0; k < 2; k++ {
+			if err := sess.CreatePDR(ie.NewCreatePDR(ie.NewPDRID(1), ie.NewURRID(1))); err != nil {
+				t.Fatal(err)
+			}
+		}
+		n := 0
+		for _, p := range sess.PDRIDs {
+			if _, ok := p.RelatedURRIDs[1]; ok {
+				n++
+			}
+		}
+		fmt.Printf("after Create PDR 1 {URR 1} twice: PDRs whose current list names URR 1: %d, refPdrNum(URR 1) = %d\n", n, sess.URRIDs[1].refPdrNum)
+		usars, err := sess.RemovePDR(ie.NewRemovePDR(ie.NewPDRID(1)))
+		fmt.Printf("Remove PDR 1: err=%v, final usage reports returned: %d, refPdrNum(URR 1) = %d\n", err, len(usars), sess.URRIDs[1].refPdrNum)
+		if int(sess.URRIDs[1].refPdrNum) != 0 {
+			fmt.Println("REPLAY-CONFIRMED refagain: a Create PDR for an id the session already holds replaces the PDR's URR list without releasing the references of the replaced list; no PDR names the URR any more but it still counts as referenced")
+		}
 	case strings.Contains(m.Obligation, "UpdateNodeID#reg"):
 		// two associated nodes with one session each; a modification request for a session of smfA names smfB as
 		// the new node id (TS 29.244 7.5.4) and the handler calls UpdateNodeID(smfA's node, "smfB")
